@@ -129,3 +129,34 @@ def soak_size(pid, tier):
     lits = [x for x in check.source_literals(pid) if 2 <= x <= (20000 if tier == "quick" else 200000)]
     floor = 2200 if tier == "quick" else 20000
     return max([floor] + [x + 60 for x in lits])
+
+
+_bpts = [None]
+
+
+def boundary_points():
+    """compressed SEC encodings of valid secp256k1 points whose x coordinate sits at a boundary: the largest x below the
+    field prime p, the first x at or above the group order n (n < p: a bound on scalars is not a bound on
+    coordinates), the smallest x, x with leading zero bytes, x around 2^255 — both parities each.  Points produced
+    as k*G from generated scalars land in none of these classes."""
+    if _bpts[0] is None:
+        def on_curve_from(x0, step, count):
+            out, x = [], x0
+            while len(out) < count and 0 < x < P:
+                rhs = (pow(x, 3, P) + 7) % P
+                y = pow(rhs, (P + 1) // 4, P)
+                if y * y % P == rhs:
+                    for yy in (y, P - y):
+                        out.append(bytes([2 + (yy & 1)]) + x.to_bytes(32, "big"))
+                x += step
+            return out
+        pts = []
+        pts += on_curve_from(P - 1, -1, 4)             # just below p
+        pts += on_curve_from(N, 1, 4)                  # at / just above n
+        pts += on_curve_from(N - 1, -1, 2)             # just below n
+        pts += on_curve_from(1, 1, 4)                  # smallest x
+        pts += on_curve_from(2 ** 255, 1, 2)
+        pts += on_curve_from(2 ** 200, 1, 2)           # leading zero bytes
+        pts += on_curve_from((P + N) // 2, 1, 2)       # middle of [n, p)
+        _bpts[0] = pts
+    return _bpts[0]
